@@ -8,26 +8,49 @@ package main
 //	case = (cfg9 tags () (0 0))      the shape of every C09 case (the model glue decodes cfg9 and the stop tuple);
 //	   cfg9 = (1 1 0 20 1 0 1 1 1)   fixed, unused
 //	   tags = (#tag ...)             pipeline i (named p<i>) has main output tag "o<i>" and dead-queue tag #tag
-//	                                 (# empty: that pipeline has no deadqueue section)
+//	                                 (# empty: that pipeline has no deadqueue section; "-": an EMPTY section `"deadqueue":{}`,
+//	                                 which getStaticInfo treats as no dead queue; "!notype" / "!unknown" / "!badcfg": a
+//	                                 deadqueue section without type / with an unregistered type / with a config the plugin
+//	                                 rejects; "!mainbad" / "!mainnotype" / "!mainunknown" / "!nooutput": the main output's own config is
+//	                                 rejected / has no type / an unregistered type / is missing — fd must REFUSE to start
+//	                                 (logger.Fatalf; the harness turns Fatal into a panic) and must not have started anything)
+//	   stop tuple (0 arg)            arg 1: fd.New(conf, "127.0.0.1:0") — HTTP on — and the run ends with FileD.Stop(ctx)
+//	                                 instead of stopping the pipelines one by one (arg 0: HTTP "off", the historical way)
 //	observed = ((0 107 i role tagOK) ...)  role 0 main output, 1 dead queue: the plugin of pipeline i was started, tagOK = 1
 //	                                 iff its config carries the tag the configuration text gives it          (harness-only kind)
 //	         + (0 101 i role)        for every plugin started with a config that is not its own: kind 101 is what the batcher
 //	                                 monitors of C09 (m_no_panic) reject, so a wrong wiring is a Violates verdict
 //	         + (0 103 9 i role)      a plugin the configuration asks for was never started (m_not_stuck)
+//	         + (0 109 i role n)      the plugin's Stop was called n times by the end of the run; n != 1, or a dead queue
+//	                                 stopped before its main output (Router.Stop: the main output drains into it) -> (0 101 i role)
+//	         + (0 108 1)             start-up refused as the case demands, nothing started; a start-up that goes through, or
+//	                                 starts anything, although a section is malformed -> (0 101 -3 -3)
 
 import (
+	"context"
 	"fmt"
 	"sort"
 	"strings"
 	"sync"
+	"time"
 
 	"github.com/bitly/go-simplejson"
 	"github.com/ozontech/file.d/cfg"
 	"github.com/ozontech/file.d/fd"
+	"github.com/ozontech/file.d/logger"
 	"github.com/ozontech/file.d/pipeline"
+	"go.uber.org/zap"
+	"go.uber.org/zap/zapcore"
 
 	"verif/harness/hx"
 )
+
+// fd reports a configuration it cannot start with logger.Fatalf (os.Exit).  The process-wide logger is replaced, before
+// anything runs, by the same logger with a fatal hook that panics: a refused start-up becomes a panic of fd.Start() on the
+// calling goroutine, which the case recovers.  (A Fatal on any other goroutine still takes the process down, as before.)
+func init() {
+	logger.Instance = logger.Instance.Desugar().WithOptions(zap.WithFatalHook(zapcore.WriteThenPanic)).Sugar()
+}
 
 type wOutConfig struct {
 	Tag string `json:"tag"`
@@ -37,6 +60,7 @@ type wStarted struct {
 	pipe string
 	role int
 	tag  string
+	stop bool // a Stop call (tag unused) instead of a Start
 }
 
 var (
@@ -53,18 +77,26 @@ func (*wInput) Stop()                                                 {}
 func (*wInput) Commit(*pipeline.Event)                                {}
 func (*wInput) PassEvent(*pipeline.Event) bool                        { return true }
 
-type wOutput struct{ role int }
+type wOutput struct {
+	role int
+	pipe string
+}
 
 func (o *wOutput) Start(c pipeline.AnyConfig, p *pipeline.OutputPluginParams) {
 	tag := "<nil config>"
 	if oc, ok := c.(*wOutConfig); ok && oc != nil {
 		tag = oc.Tag
 	}
+	o.pipe = p.PipelineName
 	wMu.Lock()
-	wSeen = append(wSeen, wStarted{p.PipelineName, o.role, tag})
+	wSeen = append(wSeen, wStarted{pipe: p.PipelineName, role: o.role, tag: tag})
 	wMu.Unlock()
 }
-func (o *wOutput) Stop()               {}
+func (o *wOutput) Stop() {
+	wMu.Lock()
+	wSeen = append(wSeen, wStarted{pipe: o.pipe, role: o.role, stop: true})
+	wMu.Unlock()
+}
 func (o *wOutput) Out(*pipeline.Event) {}
 
 func wRegister() {
@@ -83,38 +115,95 @@ func execWiring(cs hx.Sx) hx.Sx {
 	wRunning.Lock()
 	defer wRunning.Unlock()
 	tags := hx.Items(hx.Items(cs)[1])
+	withHTTP := false
+	if st := hx.Items(hx.Items(cs)[3]); len(st) > 1 && !hx.IsList(st[1]) && hx.Int(st[1]) == 1 {
+		withHTTP = true
+	}
 	conf := &cfg.Config{Pipelines: map[string]*cfg.PipelineConfig{}}
 	want := map[string][2]string{}
+	refuse := false
 	for i, t := range tags {
 		name := fmt.Sprintf("p%d", i)
-		dq := ""
-		if tag := hx.Str(t); tag != "" {
+		dq, mainExtra, wantDq := "", "", hx.Str(t)
+		switch tag := hx.Str(t); tag {
+		case "":
+		case "-":
+			dq, wantDq = `,"deadqueue":{}`, ""
+		case "!notype":
+			dq = `,"deadqueue":{"tag":"x"}`
+		case "!unknown":
+			dq = `,"deadqueue":{"type":"verif-no-such-plugin","tag":"x"}`
+		case "!badcfg":
+			dq = `,"deadqueue":{"type":"verifwdq","tag":"x","no_such_option":1}`
+		case "!mainbad":
+			mainExtra = `,"no_such_option":1`
+		case "!mainnotype", "!mainunknown", "!nooutput":
+		default:
 			dq = fmt.Sprintf(`,"deadqueue":{"type":"verifwdq","tag":"%s"}`, tag)
 		}
-		text := fmt.Sprintf(`{"settings":{"capacity":4},"input":{"type":"verifwin"},"output":{"type":"verifwout","tag":"o%d"%s}}`, i, dq)
+		if strings.HasPrefix(wantDq, "!") {
+			refuse, wantDq = true, ""
+		}
+		text := fmt.Sprintf(`{"settings":{"capacity":4},"input":{"type":"verifwin"},"output":{"type":"verifwout","tag":"o%d"%s%s}}`, i, mainExtra, dq)
+		switch hx.Str(t) {
+		case "!mainnotype":
+			text = fmt.Sprintf(`{"settings":{"capacity":4},"input":{"type":"verifwin"},"output":{"tag":"o%d"}}`, i)
+		case "!mainunknown":
+			text = fmt.Sprintf(`{"settings":{"capacity":4},"input":{"type":"verifwin"},"output":{"type":"verif-no-such-plugin","tag":"o%d"}}`, i)
+		case "!nooutput":
+			text = `{"settings":{"capacity":4},"input":{"type":"verifwin"}}`
+		}
 		js, err := simplejson.NewJson([]byte(text))
 		if err != nil {
 			return hx.L(hx.L(hx.I(0), hx.I(101), hx.I(-1), hx.I(-1)))
 		}
 		conf.Pipelines[name] = &cfg.PipelineConfig{Raw: js}
-		want[name] = [2]string{fmt.Sprintf("o%d", i), hx.Str(t)}
+		want[name] = [2]string{fmt.Sprintf("o%d", i), wantDq}
 	}
 	wMu.Lock()
 	wSeen = nil
 	wMu.Unlock()
 	var res []hx.Sx
-	if p := hx.Catch(func() {
+	panicked := hx.Catch(func() {
+		if withHTTP {
+			f := fd.New(conf, "127.0.0.1:0")
+			f.Start()
+			ctx, cancel := context.WithTimeout(context.Background(), 5*time.Second)
+			defer cancel()
+			_ = f.Stop(ctx)
+			return
+		}
 		f := fd.New(conf, "off")
 		f.Start()
 		for _, p := range f.Pipelines { // fd.Stop waits for the HTTP server, which "off" never starts
 			p.Stop()
 		}
-	}); p != "" {
+	}) != ""
+	wMu.Lock()
+	all := append([]wStarted(nil), wSeen...)
+	wMu.Unlock()
+	if refuse {
+		if panicked && len(all) == 0 {
+			return hx.L(hx.L(hx.I(0), hx.I(108), hx.I(1)))
+		}
+		res = append(res, hx.L(hx.I(0), hx.I(101), hx.I(-3), hx.I(-3)))
+	} else if panicked {
 		res = append(res, hx.L(hx.I(0), hx.I(101), hx.I(-2), hx.I(-2)))
 	}
-	wMu.Lock()
-	seen := append([]wStarted(nil), wSeen...)
-	wMu.Unlock()
+	var seen []wStarted
+	stops := map[string]int{}  // "pipe/role" -> number of Stop calls
+	stopAt := map[string]int{} // "pipe/role" -> position of the first Stop call
+	for k, s := range all {
+		key := fmt.Sprintf("%s/%d", s.pipe, s.role)
+		if s.stop {
+			if stops[key] == 0 {
+				stopAt[key] = k
+			}
+			stops[key]++
+		} else {
+			seen = append(seen, s)
+		}
+	}
 	sort.Slice(seen, func(a, b int) bool {
 		if seen[a].pipe != seen[b].pipe {
 			return seen[a].pipe < seen[b].pipe
@@ -125,11 +214,19 @@ func execWiring(cs hx.Sx) hx.Sx {
 	for _, s := range seen {
 		var i int
 		fmt.Sscanf(strings.TrimPrefix(s.pipe, "p"), "%d", &i)
-		ok := want[s.pipe][s.role] == s.tag
-		started[fmt.Sprintf("%s/%d", s.pipe, s.role)] = true
+		ok := want[s.pipe][s.role] == s.tag && (s.role == 0 || want[s.pipe][1] != "")
+		key := fmt.Sprintf("%s/%d", s.pipe, s.role)
+		started[key] = true
 		res = append(res, hx.L(hx.I(0), hx.I(107), hx.I(i), hx.I(s.role), hx.Bool(ok)))
 		if !ok {
 			res = append(res, hx.L(hx.I(0), hx.I(101), hx.I(i), hx.I(s.role)))
+		}
+		if !panicked {
+			n := stops[key]
+			res = append(res, hx.L(hx.I(0), hx.I(109), hx.I(i), hx.I(s.role), hx.I(n)))
+			if n != 1 || (s.role == 1 && stops[s.pipe+"/0"] > 0 && stopAt[key] < stopAt[s.pipe+"/0"]) {
+				res = append(res, hx.L(hx.I(0), hx.I(101), hx.I(i), hx.I(s.role)))
+			}
 		}
 	}
 	for i := range tags {
